@@ -519,7 +519,8 @@ def jobs(tier):
     for size in ([(1, 1), (2, 1)] if q else [(1, 1), (2, 1), (2, 2), (3, 2)]):
         js.append(job_deviation(size))
     for which in ('onset', 'offset', 'no_offset', 'with_offset'):
-        for size in ([(1, 1), (2, 2)] if q else [(1, 1), (2, 2), (2, 3), (3, 3)]):
+        big = [(2, 3)] if which in ('onset', 'offset') else [(1, 2), (2, 1)]
+        for size in ([(1, 1), (2, 2)] if q else [(1, 1), (2, 2)] + big):
             js.append(job_notes(which, size, False))
         js.append(job_notes(which, (1, 2), True))
     for size in ([(1, 1), (2, 1), (1, 2)] if q else [(1, 1), (2, 1), (1, 2), (2, 2), (3, 1)]):
